@@ -263,7 +263,7 @@ def plausible_op(uni, w, S, rng, catalogue):
   if r < 0.44:
     return mkop("Remove", rng.choice(E))
   if r < 0.50:
-    p = rng.choice(E)
+    p = rng.choice(([e for e in E if S["kids"][e - 1]] or E) if smart else E)
     kids = S["kids"][p - 1]
     if smart and kids:
       return mkop("RemoveChild", p, rng.choice(kids))
